@@ -69,20 +69,25 @@ def MAX_PREALLOC : Nat := 65536
 /-- elements `read_many` pre-allocates for `n` requested elements of `size` bytes -/
 def preallocCount (size n : Nat) : Nat := min n (MAX_PREALLOC / max size 1)
 
-def loopMany (d : PDec α) (grow : Nat) : Nat → PDec (List α)
+def loopMany (d : PDec α) : Nat → PDec (List α)
   | 0 => pure []
   | n + 1 => do
     let x ← d
-    alloc grow
-    let xs ← loopMany d grow n
+    let xs ← loopMany d n
     pure (x :: xs)
 
+/-- an element read into a vector that has to grow: growth by doubling is counted as twice the element size per
+    element read -/
+def growing (size : Nat) (d : PDec α) : PDec α := do
+  let x ← d
+  alloc (2 * size)
+  pure x
+
 /-- `read_many::<D>(n)` with `size_of::<D>() = size`: a bounded pre-allocation, then one element after the other;
-    when more elements than pre-allocated are requested the vector grows by doubling, counted as twice the
-    element size per element read -/
+    when more elements than pre-allocated are requested the vector grows while it is filled -/
 def readManyA (size : Nat) (d : PDec α) (n : Nat) : PDec (List α) := do
   alloc (preallocCount size n * size)
-  loopMany d (if n ≤ MAX_PREALLOC / max size 1 then 0 else 2 * size) n
+  loopMany (if n ≤ MAX_PREALLOC / max size 1 then d else growing size d) n
 
 -- ------------------------------------------------------------------------------------------------
 -- Proof::from_bytes
@@ -181,7 +186,7 @@ def pProof : PDec Proof := do
   let cm ← pBlock 2
   -- `Vec::with_capacity(num_trace_segments)`
   alloc (c.traceInfo.numSegments * SIZE_TWO_VECS)
-  let tq ← loopMany pQueries 0 c.traceInfo.numSegments
+  let tq ← loopMany pQueries c.traceInfo.numSegments
   let cq ← pQueries
   let ood ← pOod
   let fri ← pFri
@@ -291,7 +296,7 @@ def pMerkle (A : Air) (depth leaves : Nat) : PDec Unit := do
   let _ ← loopMany (do
     let ndig ← u8
     let _ ← readManyA A.digestSize (pDigest A) ndig
-    pure ()) 0 nvec
+    pure ()) nvec
   pure ()
 
 open Gen.Limits in
@@ -323,7 +328,7 @@ def layerParse (A : Air) (l : FriLayer) (domain folding deg : Nat) : AM Unit := 
   aalloc (nq * A.digestSize)
   aalloc (nq * folding * elemSize A deg)
   onBytes l.values (do
-    let _ ← loopMany (readManyA (elemSize A deg) (pElem A deg) folding) 0 nq
+    let _ ← loopMany (readManyA (elemSize A deg) (pElem A deg) folding) nq
     pEnd)
   -- `domain_size.ilog2()`
   if domain = 0 then apanic else
@@ -356,17 +361,20 @@ def friParseRemainder (A : Air) (fri : FriProof) (deg : Nat) : AM Unit := do
     let _ ← readManyA (elemSize A deg) (pElem A deg) ne
     pEnd))
 
-/-- `OodFrame::parse(main_trace_width, aux_trace_width, num_evaluations)` (repairs 660ad26, eda2442); the
+/-- `OodFrame::parse(main_trace_width, aux_trace_width, num_evaluations)` (repairs 660ad26, eda2442, 247eff9); the
     result is the number of rows of the Lagrange kernel frame, if there is one -/
 def oodParse (A : Air) (f : OodFrame) (mainW auxW ncols deg : Nat) : AM (Option Nat) := do
   if mainW = 0 then apanic else
   if ncols = 0 then apanic else do
   let lag ← onBytes f.lagrange (do
     let k ← u8
-    if k > 0 then do
+    let r ← (if k > 0 then do
       let _ ← readManyA (elemSize A deg) (pElem A deg) k
       pure (some k)
     else pure none)
+    -- repair 247eff9
+    pEnd
+    pure r)
   if lag.isSome ∧ auxW = 0 then aerr else do
   let auxW' := if lag.isSome then auxW - 1 else auxW
   onBytes f.traceStates (do
@@ -413,7 +421,9 @@ def channelNew (A : Air) (p : Proof) (ncols : Nat) : AM Unit := do
   let lag ← mapErr (oodParse A p.oodFrame ti.main ti.aux ncols deg)
   -- repair bef468b
   let expected := if A.lagrange then some (ti.length.log2 + 1) else none
-  if lag ≠ expected then aerr else pure ()
+  if lag ≠ expected then aerr else
+  -- repair 76bb3d0: a GKR proof the AIR has no use for
+  if p.gkrProof.isSome ∧ A.lagrange = false then aerr else pure ()
 
 /-- `get_conjectured_security` in `u32` / `usize` arithmetic of a debug build; `none` = an arithmetic panic
     (overflowing product, `ilog2(0)`, underflowing subtraction) -/
